@@ -132,6 +132,9 @@ func init() {
 		"sync/atomic.LoadUint32":            extAtomicLoad,
 		"sync/atomic.LoadUint64":            extAtomicLoad,
 		"sync/atomic.LoadPointer":           extAtomicLoad,
+		"sync/atomic.StorePointer":          extAtomicStore,
+		"sync/atomic.SwapPointer":           extAtomicSwap,
+		"sync/atomic.CompareAndSwapPointer": extAtomicCAS,
 		"sync/atomic.StoreInt64":            extAtomicStore,
 		"sync/atomic.StoreInt32":            extAtomicStore,
 		"sync/atomic.StoreUint32":           extAtomicStore,
@@ -424,6 +427,14 @@ func extAtomicStore(fr *frame, args []value) (value, bool) {
 	fr.i.atomicPoint(args[0].(*value), true)
 	*args[0].(*value) = args[1]
 	return nil, true
+}
+
+func extAtomicSwap(fr *frame, args []value) (value, bool) {
+	p := args[0].(*value)
+	fr.i.atomicPoint(p, true)
+	old := *p
+	*p = args[1]
+	return old, true
 }
 
 func extAtomicAdd(fr *frame, args []value) (value, bool) {
